@@ -61,6 +61,10 @@ class Prop(common.PropertyCheck):
         for i in range(self.budget(10, 100)):
             yield {'k': 'data', 'neg': ['none', 'small', 'none', 'tiny'][i % 4], 'multi': i % 3 == 0, 'cont': ['array', 'sample', 'sample_rfi'][i % 3], 'over': None, 'above': False,
                    'seed': rng.randrange(1 << 30), 'modify': ['subtract', 'scale', 'clip'][i % 3]}
+        # lists of samples in which the requested channel (given by name) is not in the same column everywhere
+        for i in range(self.budget(12, 100)):
+            yield {'k': 'data', 'neg': ['small', 'large', 'none', 'tiny'][i % 4], 'multi': True, 'cont': ['sample', 'sample_rfi'][i % 2], 'over': [None, None, 'M'][i % 3], 'above': False,
+                   'seed': rng.randrange(1 << 30), 'byname': True}
         # data sets without a known range whose largest value is not positive: the derived T must be refused
         for neg in ('allzero', 'nonpos', 'allzero', 'nonpos'):
             yield {'k': 'data', 'neg': neg, 'multi': rng.random() < 0.5, 'cont': 'array', 'over': rng.choice([None, 'M', 'W']), 'seed': rng.randrange(1 << 30)}
@@ -198,7 +202,14 @@ class Prop(common.PropertyCheck):
                     if len(datas) != len(saved) or any(a is not b for a, b in zip(datas, saved)) or [np.asarray(x).shape for x in datas] != shapes:
                         return {'list_changed': 'building a transform for channel 0 from a list of %d samples changed the list: members now have shapes %s (were %s)' % (
                             len(saved), [np.asarray(x).shape for x in datas], shapes), 'mins': mins, 'maxs': maxs, 'ranges': ranges, 'kw': kw}
-                t = FlowCal.plot._LogicleTransform(data=datas if case['multi'] else datas[0], channel=1, **kw)
+                if case.get('byname') and case['multi'] and all(hasattr(x, 'channels') for x in datas):
+                    # the samples of the list come from different acquisition templates: the requested channel, given by name, sits in another column
+                    # in every second sample
+                    nm = datas[0].channels[1]
+                    datas2 = [x if i % 2 == 0 else x[:, [1, 0]] for i, x in enumerate(datas)]
+                    t = FlowCal.plot._LogicleTransform(data=datas2, channel=nm, **kw)
+                else:
+                    t = FlowCal.plot._LogicleTransform(data=datas if case['multi'] else datas[0], channel=1, **kw)
             except Exception as e:
                 return {'err': type(e).__name__ + ':' + str(e)[:80], 'mins': mins, 'maxs': maxs, 'ranges': ranges, 'kw': kw}
             return {'TMW': [float(t.T), float(t.M), float(t.W)], 'mins': mins, 'maxs': maxs, 'ranges': ranges, 'kw': kw}
